@@ -488,12 +488,16 @@ impl AddressLookupServices {
     ///
     /// If there is historical Address Lookup data, it will be published immediately on this service.
     pub fn add_boxed(&self, service: Box<dyn AddressLookup>) {
+        #[cfg(iroh_verif)]
+        crate::verif_hooks_lookup::pause("add.read");
         {
             let data = self.last_data.read().expect("poisoned");
             if let Some(data) = &*data {
                 service.publish(data)
             }
         }
+        #[cfg(iroh_verif)]
+        crate::verif_hooks_lookup::pause("add.push");
         self.services.write().expect("poisoned").push(service);
     }
 
@@ -515,15 +519,23 @@ impl AddressLookupServices {
 
     /// Publish endpoint data on all configured services.
     pub(crate) fn publish(&self, data: &EndpointData) {
+        #[cfg(iroh_verif)]
+        crate::verif_hooks_lookup::pause("pub.filter");
         let data = match &*self.addr_filter.read().expect("poisoned") {
             Some(filter) => data.apply_filter(filter),
             None => Cow::Borrowed(data),
         };
+        #[cfg(iroh_verif)]
+        crate::verif_hooks_lookup::pause("pub.begin");
         let services = self.services.read().expect("poisoned");
         for service in &*services {
+            #[cfg(iroh_verif)]
+            crate::verif_hooks_lookup::pause("pub.give");
             service.publish(&data);
         }
 
+        #[cfg(iroh_verif)]
+        crate::verif_hooks_lookup::pause("pub.store");
         self.last_data
             .write()
             .expect("poisoned")
